@@ -445,4 +445,17 @@ def daoWithdraw (hds : List Nat) (number ar : Nat → Nat) (info : Option Nat) (
     if ¬ number dh < number wh then .error .invalidOutPoint
     else .ok (maxWithdraw cap occ (ar dh) (ar wh) true)
 
+/-- as `daoWithdraw`, with the data loader's `get_header` explicit (`known h` = the header is found):
+`calculate_maximum_withdraw` looks up the deposit header, then the withdrawing header
+(`DaoError::InvalidHeader`), before it compares their numbers -/
+def daoWithdrawL (known : Nat → Bool) (hds : List Nat) (number ar : Nat → Nat) (info : Option Nat)
+    (w : DaoWitness) (cap : Nat) (occ : Option Nat) : Except DaoErr (Option Nat) :=
+  match daoHeaders hds info w with
+  | .error e => .error e
+  | .ok (dh, wh) =>
+    if !known dh then .error .invalidHeader
+    else if !known wh then .error .invalidHeader
+    else if ¬ number dh < number wh then .error .invalidOutPoint
+    else .ok (maxWithdraw cap occ (ar dh) (ar wh) true)
+
 end CkbVerif.TxRules
